@@ -13,8 +13,132 @@ and consist of `Op`s; a container change inserts fresh objects and/or objects th
 same container before it (reorderings, carry-over reassignments), so the graph stays a tree.
 -/
 import TraitsVerif.Lemmas.LegacyMain
+import TraitsVerif.Lemmas.LegacySource
 namespace TraitsVerif.Props.C16
 open TraitsVerif.Model.Legacy
+open TraitsVerif.Model.LisL (regSrc handleSrc eventOf methOf handlerFor)
+open TraitsVerif.Generated.LegacyProg (prog)
+
+/-! ### the model is the source
+
+`Generated/LegacyProg.lean` is the translation (harness/translate/legacysrc.py, Python `ast`,
+regenerated from the working tree on every run) of `ListenerItem.register / unregister /
+_register_simple / _register_list (= _register_set) / _register_dict / handle_*` of
+traits/traits_listener.py into the deep-embedded language `Model/LisL.lean`. -/
+
+/-- `register` and `unregister` of the model are, for all heaps, names, items, objects and
+listener states, the interpretation of the translated source: the early-return test
+(`new is None or new is Undefined or new in self.active` / `old is not None …` +
+`self.active.pop`), the `active` bookkeeping, the `_on_trait_change` calls of the
+`_register_<kind>` method that `type_map` and the class-level alias select for the trait's kind
+(which handler, on `name` or `name_items`, in which order, under which of `self.notify` /
+`self.type` / `next is None`), and the walk into `next` over `getattr(object, name)`.  Hence
+`C16_legacy_eq_reach`, `C16_agree`, `C16_remove_stops` … are theorems about the interpreted
+source. -/
+theorem C16_register_is_source (h : Heap) (ty0 : LType) (fin : Final) (ls : List Link) (k o : Nat)
+    (s : LState) :
+    register h ty0 fin k ls o s = regSrc prog h ty0 fin false k ls o s ∧
+    unregister h ty0 fin k ls o s = regSrc prog h ty0 fin true k ls o s :=
+  ⟨TraitsVerif.Model.LisL.register_is_source h ty0 fin ls k o s,
+   TraitsVerif.Model.LisL.unregister_is_source h ty0 fin ls k o s⟩
+
+/-- The un/re-registration script of every operation of a history is what the translated
+`handle_simple / handle_list / handle_list_items / handle_dict / handle_dict_items` does on the
+event the operation sends (`eventOf`: the items of the old and new value, or `removed` / `added` /
+`changed` of the `_items` event), where the method is the one the translated `_register_<kind>`
+installs on the trait (`handlerFor_table`). -/
+theorem C16_handle_is_source {h : Heap} {op : Op} {m : Mut} (hm : mutate h op = some m) :
+    match methOf m.trait with
+    | some (meth, items) => m.script = handleSrc prog meth items (eventOf h op m)
+    | none => m.script = [] := by
+  open TraitsVerif.Model.LisL in
+  cases op with
+  | dictSet o key =>
+    simp only [mutate] at hm
+    split at hm
+    · split at hm <;> cases hm <;> rename_i hf <;>
+        simp [methOf, eventOf, handle_dictItems_src, unregAll, regAll, hf]
+    · cases hm
+  | dictDel o key =>
+    simp only [mutate] at hm
+    split at hm
+    · split at hm <;> cases hm
+      simp [methOf, eventOf, handle_dictItems_src, unregAll, regAll, scUnregs, scRegs]
+    · cases hm
+  | dictUpdate o keys =>
+    simp only [mutate] at hm
+    split at hm
+    · cases hm
+      simp [methOf, eventOf, handle_dictItems_src, unregAll]
+    · cases hm
+  | rearrange o d p n inplace =>
+    simp only [mutate] at hm
+    split at hm
+    · cases hm
+      cases inplace <;> simp [methOf, eventOf, handle_list_src, handle_listItems_src]
+    · cases hm
+  | stray n =>
+    simp only [mutate] at hm
+    cases hm
+    simp [methOf, eventOf, handle_simple_src, unregAll, regAll, scUnregs, scRegs]
+  | reg => simp [mutate] at hm
+  | unreg => simp [mutate] at hm
+  | probe o f =>
+    simp only [mutate] at hm
+    split at hm <;> cases hm
+    simp [methOf]
+  | _ =>
+    simp only [mutate] at hm
+    split at hm
+    · cases hm
+      simp [methOf, eventOf, handle_simple_src, handle_list_src, handle_listItems_src, handle_dict_src,
+        handle_dictItems_src] <;> rfl
+    · cases hm
+
+/-- The guards of `register` / `unregister` as written in the source, for EVERY combination of the
+facts they test (also `Undefined` / `Uninitialized` values, which the model's heaps do not
+contain): register returns at once iff `new` is None, Undefined or already active; unregister
+looks at `self.active` iff `old` is neither None nor Uninitialized. -/
+theorem C16_guards_are_source (nn nt a b c : Bool) :
+    TraitsVerif.Model.LisL.evalCond { nextNone := nn, notify := nt, type := 0, remove := false, valNone := a, valUndefined := b, valActive := c } prog.registerSkip = (a || b || c) ∧
+    TraitsVerif.Model.LisL.evalCond { nextNone := nn, notify := nt, type := 0, remove := true, valNone := a, valUninit := b } prog.unregisterGuard = (!a && !b) :=
+  ⟨TraitsVerif.Model.LisL.registerSkip_table nn nt a b c, TraitsVerif.Model.LisL.unregisterGuard_table nn nt a b⟩
+
+/-- Deferred items (`deferred=True`, every `@on_trait_change` method): the translated
+`_register_<kind>` attaches the same notifiers and skips the walk into the current value(s) exactly
+for a registration of a deferred item whose attribute is not yet in `object.__dict__` — where the
+value is the empty default, so that `registerTop` = `register` (see Model/Legacy.lean). -/
+theorem C16_deferred_is_source (ty : LType) (k : Nat) (l : Link) (remove deferred materialised : Bool) :
+    (TraitsVerif.Model.LisL.summary prog (TraitsVerif.Model.LisL.dvtOf l.attr)
+        { nextNone := false, notify := l.notify, type := TraitsVerif.Model.LisL.typeNum prog ty, remove := remove, deferred := deferred, materialised := materialised }).tail =
+      (if !remove && deferred && !materialised then TraitsVerif.Model.LisL.Tail.none
+        else TraitsVerif.Model.LisL.expectedTail l.attr remove) ∧
+    (TraitsVerif.Model.LisL.summary prog (TraitsVerif.Model.LisL.dvtOf l.attr)
+        { nextNone := false, notify := l.notify, type := TraitsVerif.Model.LisL.typeNum prog ty, remove := remove, deferred := deferred, materialised := materialised }).hooks.map (TraitsVerif.Model.LisL.toHook k l.attr)
+      = linkHooks ty k l :=
+  ⟨TraitsVerif.Model.LisL.deferred_tail_table ty l remove deferred materialised,
+   TraitsVerif.Model.LisL.deferred_hooks_table ty k l remove deferred materialised⟩
+
+/-- DST signatures (handler(new) / handler(name, new); not in the model): the notifiers the translated
+source installs for them are the table `dstHooks` (`handle_dst` on a notifying Instance link,
+`handle_error` on notifying container links, never the user's handler), and the three listener type
+constants are distinct. -/
+theorem C16_dst_table (l : Link) (remove : Bool) :
+    (TraitsVerif.Model.LisL.summary prog (TraitsVerif.Model.LisL.dvtOf l.attr)
+        { nextNone := false, notify := l.notify, type := prog.dstListener, remove := remove }).hooks
+      = TraitsVerif.Model.LisL.dstHooks l.attr l.notify ∧
+    prog.anyListener ≠ prog.srcListener ∧ prog.anyListener ≠ prog.dstListener ∧
+    prog.srcListener ≠ prog.dstListener :=
+  ⟨TraitsVerif.Model.LisL.dst_hooks_table l remove, TraitsVerif.Model.LisL.constants_table⟩
+
+/-- Which handle_* method serves which trait (read off the translated `_register_<kind>`), for `.`
+and `:` links and every handler signature of the fragment. -/
+theorem C16_handler_table (n : Bool) (ty : LType) :
+    handlerFor prog ⟨.child, n⟩ ty false = some .simple ∧
+    handlerFor prog ⟨.kids, n⟩ ty false = some .list ∧ handlerFor prog ⟨.kids, n⟩ ty true = some .listItems ∧
+    handlerFor prog ⟨.group, n⟩ ty false = some .list ∧ handlerFor prog ⟨.group, n⟩ ty true = some .listItems ∧
+    handlerFor prog ⟨.byname, n⟩ ty false = some .dict ∧ handlerFor prog ⟨.byname, n⟩ ty true = some .dictItems :=
+  TraitsVerif.Model.LisL.handlerFor_table n ty
 
 /-! ### tree-shapedness -/
 
